@@ -1,6 +1,7 @@
 /-!
 C07 — the fragment of encoding/json that generated models rely on: struct fields with json names and
-`omitempty`, pointers, slices, maps with string keys, booleans, integers, strings.
+`omitempty`, pointers, slices, maps with string keys, booleans, integers of every width and signedness (a type is
+its range `lo ≤ n ≤ hi`: int8 … int64, uint8 … uint64; `int`/`uint` are the 64-bit ones), strings.
 
 `decode t j` is `json.Unmarshal(j, &v)` for a zero `v` of Go type `t`; `encode t v` is `json.Marshal(v)`.
 JSON objects are written with their members in canonical order (struct fields in declaration order, map keys
@@ -18,7 +19,7 @@ inductive JVal where
 
 mutual
 inductive GoTy where
-  | bool | int | string
+  | bool | int (lo hi : Int) | string
   | ptr (t : GoTy)
   | slice (t : GoTy)
   | map (t : GoTy)              -- map[string]T
@@ -44,7 +45,7 @@ mutual
 /-- The zero value of a Go type. -/
 def zero : GoTy → GoVal
   | .bool => .bool false
-  | .int => .int 0
+  | .int _ _ => .int 0
   | .string => .str ""
   | .ptr _ => .nilv
   | .slice _ => .nilv
@@ -61,9 +62,9 @@ def decode : GoTy → JVal → Option GoVal
   | .bool, .bool b => some (.bool b)
   | .bool, .null => some (.bool false)
   | .bool, _ => none
-  | .int, .num n => some (.int n)
-  | .int, .null => some (.int 0)
-  | .int, _ => none
+  | .int lo hi, .num n => if lo ≤ n ∧ n ≤ hi then some (.int n) else none   -- "cannot unmarshal number … into Go value of type …"
+  | .int _ _, .null => some (.int 0)
+  | .int _ _, _ => none
   | .string, .str s => some (.str s)
   | .string, .null => some (.str "")
   | .string, _ => none
@@ -104,7 +105,7 @@ mutual
 /-- `json.Marshal` (`none` = the value does not have the type). -/
 def encode : GoTy → GoVal → Option JVal
   | .bool, .bool b => some (.bool b)
-  | .int, .int n => some (.num n)
+  | .int _ _, .int n => some (.num n)
   | .string, .str s => some (.str s)
   | .ptr _, .nilv => some .null
   | .ptr t, .ptr v => encode t v
@@ -126,15 +127,32 @@ end
 
 
 
+/-- The integer types of Go on a 64-bit platform. -/
+def int8 : GoTy := .int (-128) 127
+def int16 : GoTy := .int (-32768) 32767
+def int32 : GoTy := .int (-2147483648) 2147483647
+def int64 : GoTy := .int (-9223372036854775808) 9223372036854775807
+def uint8 : GoTy := .int 0 255
+def uint16 : GoTy := .int 0 65535
+def uint32 : GoTy := .int 0 4294967295
+def uint64 : GoTy := .int 0 18446744073709551615
+
 def names : Fields → List String
   | .nil => []
   | .cons n _ _ rest => n :: names rest
 
+/-- `uint8` is `byte`: encoding/json writes a `[]uint8` as a base64 string, not as an array of numbers. -/
+def isByte : GoTy → Bool
+  | .int lo hi => lo == 0 && hi == 255
+  | _ => false
+
 mutual
-/-- Well-formed type: the JSON names of every struct are pairwise distinct. -/
+/-- Well-formed type: the JSON names of every struct are pairwise distinct; an integer type's range contains 0;
+no slice of bytes (outside the fragment: it is not encoded as an array). -/
 def wf : GoTy → Bool
+  | .int lo hi => decide (lo ≤ 0 ∧ 0 ≤ hi)
   | .ptr t => wf t
-  | .slice t => wf t
+  | .slice t => !isByte t && wf t
   | .map t => wf t
   | .struct fs => wfFields fs
   | _ => true
@@ -146,7 +164,7 @@ end
 /-- Does this JSON value decode to a Go value that `omitempty` keeps? -/
 def keptByOmitempty : GoTy → JVal → Bool
   | .bool, .bool b => b
-  | .int, .num n => n != 0
+  | .int _ _, .num n => n != 0
   | .string, .str s => s != ""
   | .ptr _, j => match j with | .null => false | _ => true
   | .slice _, .arr l => !l.isEmpty
@@ -167,7 +185,7 @@ absent only where `omitempty` will also leave it out on the way back, and a memb
 only with a value `omitempty` keeps. -/
 def valid : GoTy → JVal → Bool
   | .bool, .bool _ => true
-  | .int, .num _ => true
+  | .int lo hi, .num n => decide (lo ≤ n ∧ n ≤ hi)
   | .string, .str _ => true
   | .ptr _, .null => true
   | .ptr t, j => valid t j
